@@ -536,15 +536,14 @@ def evaluate(chk, runner, groups, B, pid="C10"):
             total += len(g["impl"])
     diffs = {}
 
-    def run_vectors(vecs):
-        lines = [model_lines(g["sc"], g["inp"], g["faults"], B, v) for g in groups if "sc" in g for v in vecs]
+    def run_vectors(vecs, kinds=None, copy_from=None):
+        sel = [g for g in groups if "sc" in g and (kinds is None or g["sc"].kind in kinds)]
+        lines = [model_lines(g["sc"], g["inp"], g["faults"], B, v) for g in sel for v in vecs]
         mout = common.run_lines(runner, lines, shards=1) if len(lines) < 3 else common.par_map(lambda l: common.run_lines(runner, [l])[0], lines, workers=WORKERS)
         mi = 0
         for v in vecs:
-            diffs[v] = []
-        for g in groups:
-            if "sc" not in g:
-                continue
+            diffs[v] = [d for d in diffs.get(copy_from, []) if d[0] not in sel] if copy_from else []
+        for g in sel:
             for v in vecs:
                 outs = mout[mi].split(" ")
                 mi += 1
@@ -557,8 +556,20 @@ def evaluate(chk, runner, groups, B, pid="C10"):
                         diffs[v].append((g, j, cmpo))
     run_vectors([PINNED, REPAIRED])
     if min(len(d) for d in diffs.values()) > 0:
-        # neither the pinned nor the fully repaired sinks: is it a tree that performs some of the checks?
-        run_vectors([format(i, "06b") for i in range(1, 63)])
+        # neither the pinned nor the fully repaired sinks: is it a tree that performs some of the checks?  Greedy search,
+        # one check at a time, re-running only the scenario kinds that the check can influence.
+        kinds_of = ["WSJR", "WSR", "J", "J", "O", "O"]
+        base = min([PINNED, REPAIRED], key=lambda v: len(diffs[v]))
+        for _ in range(2):
+            for i in range(6):
+                cand = base[:i] + ("0" if base[i] == "1" else "1") + base[i + 1:]
+                if cand in diffs:
+                    continue
+                run_vectors([cand], kinds=kinds_of[i], copy_from=base)
+                if len(diffs[cand]) < len(diffs[base]):
+                    base = cand
+            if not diffs[base]:
+                break
     variant = min(sorted(diffs), key=lambda v: (len(diffs[v]), v != PINNED, v != REPAIRED, v))
     return variant, diffs, total
 
